@@ -591,3 +591,154 @@ func msgFieldMax(p *Prog, m *types.Named, field string) (int, bool) {
 	}
 	return 0, false
 }
+
+// checkStoredTypeValidationNotStricter (C08): the genesis validator of a stored AOL type accepts, for each of its string/bytes
+// fields, every value the message validators accept for the field of the same name — otherwise a value a transaction stored makes
+// the module reject its own export. Languages (length interval × pattern) are compared by the product automaton of C16.
+func checkStoredTypeValidationNotStricter(p *Prog, r *Report, kp func(string, string) string, typesPkg string, stored []string) {
+	rule := "genesis validation of a stored entry accepts every field value the message validators accept (a reachable state passes the module's own genesis validation)"
+	// message side: field -> specs
+	type fs struct {
+		msg  string
+		spec LangSpec
+	}
+	msgSpecs := map[string][]fs{}
+	for _, m := range p.Msgs() {
+		if m.Obj().Pkg() == nil || m.Obj().Pkg().Path() != Rel(typesPkg) {
+			continue
+		}
+		vb := p.MethodOf(m, "ValidateBasic")
+		if vb == nil {
+			continue
+		}
+		A := acceptFormula(p, vb)
+		if A == nil {
+			continue
+		}
+		for _, a := range A.Atoms() {
+			cls, pos, ok := classifyMsgAtom(p, a.Term)
+			if !ok || cls.Kind != "lang" {
+				continue
+			}
+			lit := a
+			if !pos {
+				lit = fNot(a)
+			}
+			if Entails(A, lit) {
+				msgSpecs[cls.Field] = append(msgSpecs[cls.Field], fs{m.Obj().Name(), cls.Spec})
+			}
+		}
+	}
+	n := 0
+	for _, tn := range stored {
+		T := p.Named(Rel(typesPkg), tn)
+		if T == nil {
+			continue
+		}
+		val := p.MethodOf(T, "Validate")
+		if val == nil || val.Blocks == nil {
+			continue
+		}
+		A := acceptFormula(p, val)
+		if A == nil {
+			r.OKTrivial(kp("VALIDATE", tn+".Validate#not-stricter"), rule, p.FnPos(val), "accept condition not reconstructed: not decided")
+			continue
+		}
+		for _, a := range A.Atoms() {
+			cls, pos, ok := classifyMsgAtom(p, a.Term)
+			if !ok || cls.Kind != "lang" {
+				continue
+			}
+			lit := a
+			if !pos {
+				lit = fNot(a)
+			}
+			if !Entails(A, lit) {
+				continue
+			}
+			for _, ms := range msgSpecs[cls.Field] {
+				n++
+				sub, w, err := LangSubset(ms.spec, cls.Spec)
+				key := kp("VALIDATE", tn+"."+cls.Field+"⊇"+ms.msg+"."+cls.Field)
+				if err != nil {
+					r.OKTrivial(key, rule, p.FnPos(val), "languages not comparable: "+err.Error())
+					continue
+				}
+				r.Check(sub, key, rule, p.FnPos(val), fmt.Sprintf("%v ⊆ %v", ms.spec, cls.Spec),
+					fmt.Sprintf("%s.ValidateBasic accepts %s = %q, which %s.Validate rejects (%v vs %v): an entry stored by an accepted transaction makes the exported genesis fail the module's own validation", ms.msg, cls.Field, w, tn, ms.spec, cls.Spec))
+			}
+		}
+	}
+	r.Count("stored-type-vs-message-field-languages("+typesPkg+")", n)
+}
+
+// LOSTWRITE — a method with a VALUE receiver that assigns to a field of its receiver and returns nothing changes a copy: the
+// caller's value stays as it was (`func (m Msg) SetFeePayer(a string) { m.FeePayer = a }`). Reported for the hand-written methods
+// of message and stored types: a constructor or handler that relies on such a setter builds or stores something else than it says.
+func checkNoLostReceiverWrites(p *Prog, r *Report, clause, scopeName string, scope func(fn *ssa.Function) bool) {
+	rule := "a method that assigns to a field of its receiver has a pointer receiver (or returns the modified value): an assignment to a copy is lost"
+	n, nBad := 0, 0
+	for _, fn := range p.ModFuncs {
+		if fn.Blocks == nil || p.IsGenerated(fn) || !scope(fn) || fn.Signature.Recv() == nil || fn.Parent() != nil {
+			continue
+		}
+		if _, isPtr := fn.Signature.Recv().Type().(*types.Pointer); isPtr {
+			continue
+		}
+		if _, isStruct := fn.Signature.Recv().Type().Underlying().(*types.Struct); !isStruct {
+			continue
+		}
+		n++
+		if len(fn.Params) == 0 {
+			continue
+		}
+		recv := fn.Params[0]
+		// the receiver spilled into a local: stores into its fields
+		var spill *ssa.Alloc
+		if refs := recv.Referrers(); refs != nil {
+			for _, rf := range *refs {
+				if st, ok := rf.(*ssa.Store); ok && st.Val == ssa.Value(recv) {
+					spill, _ = st.Addr.(*ssa.Alloc)
+				}
+			}
+		}
+		if spill == nil || spill.Referrers() == nil {
+			continue
+		}
+		var lost ssa.Instruction
+		used := false
+		for _, rf := range *spill.Referrers() {
+			switch x := rf.(type) {
+			case *ssa.FieldAddr:
+				if x.Referrers() == nil {
+					continue
+				}
+				for _, r2 := range *x.Referrers() {
+					if st, ok := r2.(*ssa.Store); ok && st.Addr == ssa.Value(x) {
+						lost = st
+					}
+				}
+			case *ssa.UnOp:
+				// the whole (modified) copy is read: returned or handed on
+				if x.Referrers() != nil {
+					for _, r2 := range *x.Referrers() {
+						switch r2.(type) {
+						case *ssa.Return, ssa.CallInstruction, *ssa.Store, *ssa.MakeInterface:
+							used = true
+						}
+					}
+				}
+			case ssa.CallInstruction, *ssa.MakeInterface:
+				used = true // the address of the copy escapes
+			}
+		}
+		if lost != nil && !used && fn.Signature.Results().Len() == 0 {
+			nBad++
+			r.Fail(fmt.Sprintf("LOSTWRITE:%s:%s", clause, FuncName(fn)), rule, p.Pos(lost.Pos()),
+				fmt.Sprintf("%s has a value receiver, assigns to a field of it and returns nothing: the assignment changes a copy and is lost — whoever calls it (a constructor, a handler) keeps the old value", FuncName(fn)))
+		}
+	}
+	if nBad == 0 {
+		r.OK("LOSTWRITE:"+clause+":"+scopeName+"#none", rule, scopeName, fmt.Sprintf("%d value-receiver methods, none assigns to a field of its receiver without handing the copy on", n))
+	}
+}
